@@ -37,12 +37,14 @@ type c18Case struct {
 	KeepHandle bool        `json:"keep_handle"`      // workers keep *BugCache handles across calls instead of resolving each time
 	CacheSize  int         `json:"cache_size"`       // 0 = default (no eviction at these sizes)
 	Delays     bool        `json:"delays,omitempty"` // inject sleeps/yields before cache lock acquisitions (hook, build tag verif)
+	Reopen     bool        `json:"reopen,omitempty"` // the cache is closed and opened again before the workers start: it is loaded from its files, entities are read when first resolved (a server after a restart)
 	Workers    [][]c18Call `json:"workers"`
 }
 
 func genC18(t *rapid.T) c18Case {
 	c := c18Case{Seed: rapid.Uint64().Draw(t, "seed"), Procs: rapid.SampledFrom([]int{1, 2, 4, 16}).Draw(t, "procs"),
 		Shared: rapid.IntRange(1, 4).Draw(t, "shared"), KeepHandle: rapid.Bool().Draw(t, "keep"), Delays: rapid.IntRange(0, 2).Draw(t, "delays") > 0}
+	c.Reopen = rapid.IntRange(0, 2).Draw(t, "reopen") == 0
 	nw := rapid.IntRange(2, Scale(8, 16)).Draw(t, "workers")
 	call := rapid.Custom(func(t *rapid.T) c18Call {
 		return c18Call{Kind: rapid.SampledFrom([]string{"new", "comment", "comment", "comment", "title", "open", "close", "label", "commit", "commit", "resolve", "query", "labels", "snapshot"}).Draw(t, "kind"),
@@ -99,6 +101,15 @@ func runC18(tb report.TB, rep *report.Reporter, c c18Case) {
 		}
 		shared = append(shared, string(bc.Id()))
 		exp.add(string(bc.Id()), string(op.Id()))
+	}
+	if c.Reopen {
+		if err := w.Reopen(r); err != nil {
+			tb.Fatalf("harness: reopen: %v", err)
+		}
+		rc = r.Cache
+		if me, err = rc.GetUserIdentity(); err != nil {
+			tb.Fatalf("harness: %v", err)
+		}
 	}
 	if c.CacheSize > 0 {
 		rc.Bugs().SetCacheSize(c.CacheSize)
